@@ -331,12 +331,49 @@ def maybe_preuse(mw, key, same=None):
     same result as the first)."""
     import zlib
 
-    h = zlib.crc32(repr(key).encode()) % 4
+    c = zlib.crc32(repr(key).encode())
+    h = c % 5
     if h == 0:
         return preuse(mw)
     if h == 1 and same is not None and not getattr(mw, "allow_inplace_modification", True):
         preuse_on_edited(mw, same)
+    if h == 2 and same is not None:
+        preuse_on_variant(mw, same, c // 5)
     return mw
+
+
+_VARIANTS = (str.swapcase, str.upper, str.lower, lambda v: v + " ", lambda v: " " + v, lambda v: v.title(), lambda v: v.strip("{}\""))
+
+
+def preuse_on_variant(mw, lib, pick):
+    """Let the instance first transform an independent deep copy of `lib` whose text values are *variants* of the
+    real ones (other letter case, a surrounding blank, enclosing dropped): whatever an instance remembers under a
+    normalised form of a value must not leak into the result for a different value with the same normal form."""
+    import copy
+
+    try:
+        var = copy.deepcopy(lib)
+    except Exception:
+        return
+    f = _VARIANTS[pick % len(_VARIANTS)]
+
+    def conv(v):
+        if isinstance(v, str):
+            return f(v)
+        if isinstance(v, list):
+            return [conv(x) for x in v]
+        return v
+
+    for b in var.blocks:
+        if type(b) is Entry:
+            for fl in b.fields:
+                fl.value = conv(fl.value)
+        elif type(b) is String:
+            b.value = conv(b.value)
+    try:
+        mw.transform(var)
+    except Exception:
+        pass
 
 
 def preuse_on_edited(mw, lib):
